@@ -4,9 +4,9 @@ package main
 // matching is by canonical, type-resolved name (types.Func.FullName()).
 
 import (
-	"os"
 	"fmt"
 	"go/types"
+	"os"
 	"sort"
 	"strings"
 
@@ -29,24 +29,24 @@ const (
 	pClient  = "github.com/transparency-dev/witness/internal/client"
 	pAPI     = "github.com/transparency-dev/witness/api"
 
-	cParse    = "github.com/transparency-dev/formats/log.ParseCheckpoint"
-	cLogID    = "github.com/transparency-dev/formats/log.ID"
-	cSign     = "golang.org/x/mod/sumdb/note.Sign"
-	cOpen     = "golang.org/x/mod/sumdb/note.Open"
-	cVerify   = "github.com/transparency-dev/merkle/proof.VerifyConsistency"
-	cWriteOps = "(" + pPersist + ".LogStatePersistence).WriteOps"
-	cReadOps  = "(" + pPersist + ".LogStatePersistence).ReadOps"
-	cLogs     = "(" + pPersist + ".LogStatePersistence).Logs"
-	cInit     = "(" + pPersist + ".LogStatePersistence).Init"
-	cGetLatest = "(" + pPersist + ".LogStateReadOps).GetLatest"
-	cSet      = "(" + pPersist + ".LogStateWriteOps).Set"
-	cClose    = "(" + pPersist + ".LogStateWriteOps).Close"
-	cInc      = "(" + pMon + ".Counter).Inc"
-	cBytesEq  = "bytes.Equal"
-	cCTCmp    = "crypto/subtle.ConstantTimeCompare"
+	cParse      = "github.com/transparency-dev/formats/log.ParseCheckpoint"
+	cLogID      = "github.com/transparency-dev/formats/log.ID"
+	cSign       = "golang.org/x/mod/sumdb/note.Sign"
+	cOpen       = "golang.org/x/mod/sumdb/note.Open"
+	cVerify     = "github.com/transparency-dev/merkle/proof.VerifyConsistency"
+	cWriteOps   = "(" + pPersist + ".LogStatePersistence).WriteOps"
+	cReadOps    = "(" + pPersist + ".LogStatePersistence).ReadOps"
+	cLogs       = "(" + pPersist + ".LogStatePersistence).Logs"
+	cInit       = "(" + pPersist + ".LogStatePersistence).Init"
+	cGetLatest  = "(" + pPersist + ".LogStateReadOps).GetLatest"
+	cSet        = "(" + pPersist + ".LogStateWriteOps).Set"
+	cClose      = "(" + pPersist + ".LogStateWriteOps).Close"
+	cInc        = "(" + pMon + ".Counter).Inc"
+	cBytesEq    = "bytes.Equal"
+	cCTCmp      = "crypto/subtle.ConstantTimeCompare"
 	cStatusCode = "google.golang.org/grpc/status.Code"
-	cErrorsIs = "errors.Is"
-	cErrorf   = "fmt.Errorf"
+	cErrorsIs   = "errors.Is"
+	cErrorf     = "fmt.Errorf"
 )
 
 // calls returns the call events (not defers/go) whose canonical callee is one of names.
@@ -243,8 +243,9 @@ func codesConst(w *World, name string) string {
 }
 
 // notFoundFact recognises the accepted NotFound test idioms on error term e:
-//   status.Code(e) == codes.NotFound   (if-form; the switch-form lowers to the same comparison)
-//   status.Convert(e).Code() == codes.NotFound
+//
+//	status.Code(e) == codes.NotFound   (if-form; the switch-form lowers to the same comparison)
+//	status.Convert(e).Code() == codes.NotFound
 func notFoundFact(w *World, s Summary, e *Term) (known, val bool, seq int) {
 	nf := codesConst(w, "NotFound")
 	for _, c := range calls(s, cStatusCode) {
@@ -346,7 +347,6 @@ func shortGlobal(n string) string {
 	}
 	return n
 }
-
 
 // sliceElems: the elements of a slice value at the end of a path: an append chain / literal, or an allocation of constant
 // length whose cells were assigned by constant index.
